@@ -19,3 +19,10 @@ package context
 //@   ensures[C22] !c.IsProtected && c.IsPrivate == old(c.IsPrivate)
 //@ writers[C22] ti/context.Context.IsPrivate (*ti/context.Context).StartPrivate,(*ti/context.Context).StartProtected,(*ti/context.Context).EndPrivate
 //@ writers[C22] ti/context.Context.IsProtected (*ti/context.Context).StartPrivate,(*ti/context.Context).StartProtected,(*ti/context.Context).EndProtected
+
+//@ # ---- C16: a visibility section ends with the class body it is written in ----
+//@ # The switches are called only by the class / module body evaluators, and those work on their
+//@ # own copy of the context (Context is passed by value everywhere), so a `private` cannot leak
+//@ # into the code after the class or into another class.
+//@ callers[C16] (*ti/context.Context).StartPrivate (*ti/eval.Class).Evaluation,(*ti/eval.Class).classIdentifierProcessing,(*ti/eval.Module).Evaluation,(*ti/eval.Module).classIdentifierProcessing
+//@ callers[C16] (*ti/context.Context).StartProtected (*ti/eval.Class).Evaluation,(*ti/eval.Class).classIdentifierProcessing,(*ti/eval.Module).Evaluation,(*ti/eval.Module).classIdentifierProcessing
